@@ -121,98 +121,178 @@ Proof.
   - apply Z.gtb_lt in Ha. lia.
 Qed.
 
-(* ---- the scan loop over arbitrary head histories ---- *)
+(* ---- the scan loop over arbitrary poll histories (answered and failed head lookups) ---- *)
 
-Lemma scan_index_ge cur conf k heads k' b :
-  In (k', b) (scan cur conf k heads) -> (k <= k')%N.
+Lemma scan_index_ge cur conf k polls k' b :
+  In (k', b) (scan cur conf k polls) -> (k <= k')%N.
 Proof.
-  revert cur k; induction heads as [|h r IH]; cbn; intros cur k Hin; [contradiction|].
-  destruct (h - _ <? conf).
+  revert cur k; induction polls as [|[h|] r IH]; cbn; intros cur k Hin; [contradiction| |].
+  - destruct (h - _ <? conf).
+    + apply IH in Hin; lia.
+    + destruct Hin as [Heq | Hin]; [inversion Heq; lia | apply IH in Hin; lia].
   - apply IH in Hin; lia.
-  - destruct Hin as [Heq | Hin]; [inversion Heq; lia | apply IH in Hin; lia].
 Qed.
 
-(* Safety: whatever the history, a block is handled only at a poll whose head gives it at least
-   conf (in fact conf+1) confirmations. *)
-Lemma scan_safe cur conf k heads k' b :
-  In (k', b) (scan cur conf k heads) ->
-  exists h, nth_error heads (N.to_nat (k' - k)) = Some h /\ conf + 1 <= confirmations h b.
+(* Safety: whatever the history, a block is handled only at a poll that was answered, and the head
+   of that very poll gives it at least conf (in fact conf+1) confirmations. *)
+Lemma scan_safe cur conf k polls k' b :
+  In (k', b) (scan cur conf k polls) ->
+  exists h, nth_error polls (N.to_nat (k' - k)) = Some (Some h) /\ conf + 1 <= confirmations h b.
 Proof.
-  revert cur k; induction heads as [|h r IH]; cbn; intros cur k Hin; [contradiction|].
-  set (c := match cur with Some c => c | None => h end) in *.
-  destruct (h - c <? conf) eqn:Hlt.
-  - pose proof (scan_index_ge _ _ _ _ _ _ Hin) as Hge.
-    destruct (IH _ _ Hin) as [h' [Hn Hc]]. exists h'; split; [|exact Hc].
-    replace (N.to_nat (k' - k)) with (S (N.to_nat (k' - (k + 1)))) by lia. exact Hn.
-  - destruct Hin as [Heq | Hin].
-    + inversion Heq; subst. exists h. replace (k' - k')%N with 0%N by lia. split; [reflexivity|].
-      apply Z.ltb_ge in Hlt. unfold confirmations. lia.
+  revert cur k; induction polls as [|[h|] r IH]; cbn; intros cur k Hin; [contradiction| |].
+  - set (c := match cur with Some c => c | None => h end) in *.
+    destruct (h - c <? conf) eqn:Hlt.
     + pose proof (scan_index_ge _ _ _ _ _ _ Hin) as Hge.
       destruct (IH _ _ Hin) as [h' [Hn Hc]]. exists h'; split; [|exact Hc].
       replace (N.to_nat (k' - k)) with (S (N.to_nat (k' - (k + 1)))) by lia. exact Hn.
+    + destruct Hin as [Heq | Hin].
+      * inversion Heq; subst. exists h. replace (k' - k')%N with 0%N by lia. split; [reflexivity|].
+        apply Z.ltb_ge in Hlt. unfold confirmations. lia.
+      * pose proof (scan_index_ge _ _ _ _ _ _ Hin) as Hge.
+        destruct (IH _ _ Hin) as [h' [Hn Hc]]. exists h'; split; [|exact Hc].
+        replace (N.to_nat (k' - k)) with (S (N.to_nat (k' - (k + 1)))) by lia. exact Hn.
+  - pose proof (scan_index_ge _ _ _ _ _ _ Hin) as Hge.
+    destruct (IH _ _ Hin) as [h' [Hn Hc]]. exists h'; split; [|exact Hc].
+    replace (N.to_nat (k' - k)) with (S (N.to_nat (k' - (k + 1)))) by lia. exact Hn.
 Qed.
 
+(* A failed poll handles nothing. *)
+Lemma scan_failed_poll cur conf k r b : ~ In (k, b) (scan cur conf k (None :: r)).
+Proof. cbn. intros Hin. apply scan_index_ge in Hin. lia. Qed.
+
 (* Blocks are handled in order, contiguously from the cursor, one per poll at most. *)
-Lemma scan_contiguous c conf k heads :
-  map snd (scan (Some c) conf k heads) =
-  map (fun i => c + Z.of_nat i) (seq 0 (length (scan (Some c) conf k heads))).
+Lemma scan_contiguous c conf k polls :
+  map snd (scan (Some c) conf k polls) =
+  map (fun i => c + Z.of_nat i) (seq 0 (length (scan (Some c) conf k polls))).
 Proof.
-  revert c k; induction heads as [|h r IH]; cbn; intros c k; [reflexivity|].
+  revert c k; induction polls as [|[h|] r IH]; cbn; intros c k; [reflexivity| |apply IH].
   destruct (h - c <? conf); [apply IH|].
   cbn. f_equal; [lia|]. rewrite IH. rewrite <- seq_shift, map_map.
   apply map_ext; intros; lia.
 Qed.
 
-(* Liveness: at the first poll (the loop's current iteration) where the cursor block has one more
-   confirmation than required, it is handled at that very poll. *)
+(* Liveness: at the first answered poll (the loop's current iteration) where the cursor block has one
+   more confirmation than required, it is handled at that very poll. *)
 Lemma scan_live_now c conf k h r :
-  conf + 1 <= confirmations h c -> In (k, c) (scan (Some c) conf k (h :: r)).
+  conf + 1 <= confirmations h c -> In (k, c) (scan (Some c) conf k (Some h :: r)).
 Proof.
   unfold confirmations; intros Hc; cbn.
   destruct (h - c <? conf) eqn:Hlt; [apply Z.ltb_lt in Hlt; lia | left; reflexivity].
 Qed.
 
-Lemma hist_ok_model cur conf k heads : hist_ok cur conf k heads (scan cur conf k heads) = true.
+Lemma learn_ge best h m : learn best (Some h) = Some m -> h <= m.
+Proof. destruct best as [x|]; cbn; intros H; inversion H; lia. Qed.
+
+(* the entries of the model's output that follow a poll belong to later polls *)
+Lemma at_poll_later cur conf k polls : at_poll k (scan cur conf (k + 1)%N polls) = false.
 Proof.
-  revert cur k; induction heads as [|h r IH]; cbn; intros cur k; [reflexivity|].
-  set (c := match cur with Some c => c | None => h end) in *.
-  destruct (h - c <? conf) eqn:Hlt.
-  - assert (Hn : negb (conf + 1 <=? confirmations h c) = true).
-    { apply negb_true_iff, Z.leb_gt. apply Z.ltb_lt in Hlt. unfold confirmations; lia. }
-    destruct (scan (Some c) conf (k + 1)%N r) as [|[k' b] obs'] eqn:Hs.
-    + rewrite Hn. cbn. rewrite <- Hs. apply IH.
-    + assert (Hk : (k + 1 <= k')%N).
-      { apply (scan_index_ge (Some c) conf (k + 1)%N r k' b). rewrite Hs; left; reflexivity. }
-      destruct (N.eqb_spec k' k); [lia|]. rewrite Hn. cbn. rewrite <- Hs. apply IH.
-  - rewrite N.eqb_refl, Z.eqb_refl. cbn.
-    apply Z.ltb_ge in Hlt.
-    replace (conf <=? confirmations h c) with true
-      by (symmetry; apply Z.leb_le; unfold confirmations; lia).
-    cbn. apply IH.
+  destruct (scan cur conf (k + 1)%N polls) as [|[k' b] l] eqn:Hs; [reflexivity|]. cbn.
+  assert (Hk : (k + 1 <= k')%N) by (eapply scan_index_ge; rewrite Hs; left; reflexivity).
+  apply N.eqb_neq. lia.
+Qed.
+
+Lemma take_poll_later k c m conf obs : at_poll k obs = false -> take_poll k c m conf obs = Some (c, obs).
+Proof. destruct obs as [|[k' b] l]; cbn; [reflexivity|]. intros ->. reflexivity. Qed.
+
+Lemma hist_ok_model cur best conf k polls : hist_ok cur best conf k polls (scan cur conf k polls) = true.
+Proof.
+  revert cur best k; induction polls as [|[h|] r IH]; cbn [hist_ok scan]; intros cur best k; [reflexivity| |].
+  - set (c := match cur with Some c => c | None => h end).
+    assert (Hcur : match cur with Some c0 => Some c0 | None => Some h end = Some c) by (destruct cur; reflexivity).
+    rewrite Hcur.
+    destruct (learn best (Some h)) as [m|] eqn:Hl; [|destruct best; discriminate].
+    apply learn_ge in Hl as Hm.
+    destruct (h - c <? conf) eqn:Hlt.
+    + rewrite at_poll_later.
+      replace (conf + 1 <=? confirmations h c) with false
+        by (symmetry; apply Z.leb_gt; apply Z.ltb_lt in Hlt; unfold confirmations; lia).
+      cbn. apply IH.
+    + cbn [at_poll]. rewrite N.eqb_refl. cbn [take_poll]. rewrite N.eqb_refl, Z.eqb_refl.
+      apply Z.ltb_ge in Hlt.
+      replace (conf <=? confirmations m c) with true
+        by (symmetry; apply Z.leb_le; unfold confirmations; lia).
+      cbn [andb]. rewrite take_poll_later by apply at_poll_later. apply IH.
+  - rewrite at_poll_later.
+    replace (match cur with Some c => Some c | None => None end) with cur by (destruct cur; reflexivity).
+    destruct cur; cbn; apply IH.
+Qed.
+
+Lemma learn_cases best a m :
+  learn best a = Some m -> best = Some m \/ a = Some m.
+Proof.
+  destruct best as [x|], a as [h|]; cbn; intros H; inversion H; subst; auto.
+  destruct (Z.max_spec x h) as [[_ ->]|[_ ->]]; auto.
+Qed.
+
+(* what [take_poll] consumes was handled at poll k and is buried under m *)
+Lemma take_poll_spec k c m conf obs c' rest k' b :
+  take_poll k c m conf obs = Some (c', rest) -> In (k', b) obs ->
+  (k' = k /\ conf <= confirmations m b) \/ In (k', b) rest.
+Proof.
+  revert c; induction obs as [|[k1 b1] l IH]; cbn; intros c Ht Hin; [contradiction|].
+  destruct (N.eqb_spec k1 k) as [->|Hne].
+  - destruct (Z.eqb b1 c && (conf <=? confirmations m b1)) eqn:Hc; [|discriminate].
+    apply andb_true_iff in Hc as [_ Hc]. apply Z.leb_le in Hc.
+    destruct Hin as [Heq|Hin]; [inversion Heq; subst; left; split; [reflexivity|exact Hc]|].
+    eapply IH; eauto.
+  - inversion Ht; subst. right. exact Hin.
 Qed.
 
 (* The judge is sound w.r.t. the Prop-level reading: if it accepts an observation, every handled
-   block had conf confirmations at its poll. *)
-Lemma hist_ok_safe cur conf k heads obs k' b :
-  hist_ok cur conf k heads obs = true -> In (k', b) obs ->
-  exists h, nth_error heads (N.to_nat (k' - k)) = Some h /\ conf <= confirmations h b /\ (k <= k')%N.
+   block had conf confirmations under a head the loop had been served by then - at that poll or at
+   an earlier one (or the head [best] known before the history starts). *)
+Lemma hist_ok_safe_gen cur best conf k polls obs k' b :
+  hist_ok cur best conf k polls obs = true -> In (k', b) obs ->
+  (k <= k')%N /\
+  ((exists m, best = Some m /\ conf <= confirmations m b) \/
+   (exists j h, (j <= N.to_nat (k' - k))%nat /\ nth_error polls j = Some (Some h) /\ conf <= confirmations h b)).
 Proof.
-  revert cur k obs; induction heads as [|h r IH]; cbn; intros cur k obs Hok Hin.
+  revert cur best k obs; induction polls as [|a r IH]; cbn [hist_ok]; intros cur best k obs Hok Hin.
   - destruct obs; [contradiction|discriminate].
-  - set (c := match cur with Some c => c | None => h end) in *.
-    destruct obs as [|[k1 b1] obs']; [contradiction|].
-    destruct (N.eqb_spec k1 k) as [->|Hne].
-    + apply andb_true_iff in Hok as [Hok Hrest]. apply andb_true_iff in Hok as [Hb Hc].
-      destruct Hin as [Heq|Hin].
-      * inversion Heq; subst. exists h. replace (k' - k')%N with 0%N by lia.
-        split; [reflexivity|]. apply Z.leb_le in Hc. split; [exact Hc|lia].
-      * destruct (IH _ _ _ Hrest Hin) as [h' [Hn [Hc' Hk]]]. exists h'.
-        replace (N.to_nat (k' - k)) with (S (N.to_nat (k' - (k + 1)))) by lia.
-        repeat split; [exact Hn|exact Hc'|lia].
-    + apply andb_true_iff in Hok as [_ Hrest].
-      destruct (IH _ _ _ Hrest Hin) as [h' [Hn [Hc' Hk]]]. exists h'.
-      replace (N.to_nat (k' - k)) with (S (N.to_nat (k' - (k + 1)))) by lia.
-      repeat split; [exact Hn|exact Hc'|lia].
+  - set (best' := learn best a) in *.
+    set (cur' := match cur with Some c => Some c | None => a end) in *.
+    assert (Hlater : forall cur2 obs2, hist_ok cur2 best' conf (k + 1)%N r obs2 = true -> In (k', b) obs2 ->
+      (k <= k')%N /\
+      ((exists m, best = Some m /\ conf <= confirmations m b) \/
+       (exists j h, (j <= N.to_nat (k' - k))%nat /\ nth_error (a :: r) j = Some (Some h) /\ conf <= confirmations h b))).
+    { intros cur2 obs2 Hok2 Hin2. destruct (IH _ _ _ _ Hok2 Hin2) as [Hk [[m [Hb Hc]]|[j [h [Hj [Hn Hc]]]]]].
+      - split; [lia|]. apply learn_cases in Hb as [Hb| ->].
+        + left. exists m. split; [exact Hb|exact Hc].
+        + right. exists 0%nat, m. split; [lia|]. split; [reflexivity|exact Hc].
+      - split; [lia|]. right. exists (S j), h. split; [lia|]. split; [exact Hn|exact Hc]. }
+    destruct (at_poll k obs) eqn:Hat.
+    + destruct cur' as [c|]; [|discriminate]. destruct best' as [m|] eqn:Hb; [|discriminate].
+      destruct (take_poll k c m conf obs) as [[c' rest]|] eqn:Ht; [|discriminate].
+      destruct (take_poll_spec _ _ _ _ _ _ _ _ _ Ht Hin) as [[-> Hc]|Hrest].
+      * split; [lia|]. apply learn_cases in Hb as [Hb| ->].
+        -- left. exists m. split; [exact Hb|exact Hc].
+        -- right. exists 0%nat, m. split; [lia|]. split; [reflexivity|exact Hc].
+      * eapply Hlater; eauto.
+    + apply andb_true_iff in Hok as [_ Hok]. eapply Hlater; eauto.
+Qed.
+
+Lemma hist_ok_safe cur conf k polls obs k' b :
+  hist_ok cur None conf k polls obs = true -> In (k', b) obs ->
+  exists j h, (j <= N.to_nat (k' - k))%nat /\ nth_error polls j = Some (Some h) /\
+    conf <= confirmations h b /\ (k <= k')%N.
+Proof.
+  intros Hok Hin. destruct (hist_ok_safe_gen _ _ _ _ _ _ _ _ Hok Hin) as [Hk [[m [Hb _]]|[j [h [Hj [Hn Hc]]]]]].
+  - discriminate.
+  - exists j, h. repeat split; assumption.
+Qed.
+
+(* ... and a poll that was served a head under which the cursor block has the extra confirmation
+   did handle it: the first entry the judge accepts for such a poll is the cursor block. *)
+Lemma hist_ok_live c best conf k h r obs :
+  hist_ok (Some c) best conf k (Some h :: r) obs = true -> conf + 1 <= confirmations h c -> In (k, c) obs.
+Proof.
+  cbn [hist_ok]. intros Hok Hc.
+  destruct (at_poll k obs) eqn:Hat.
+  - destruct obs as [|[k1 b1] l]; [discriminate|]. cbn in Hat. apply N.eqb_eq in Hat. subst k1.
+    destruct (learn best (Some h)) as [m|]; [|discriminate].
+    cbn [take_poll] in Hok. rewrite N.eqb_refl in Hok.
+    destruct (Z.eqb_spec b1 c) as [->|Hne]; [left; reflexivity|]. cbn in Hok. discriminate.
+  - apply Z.leb_le in Hc. rewrite Hc in Hok. discriminate.
 Qed.
 
 (* ---- several evaluations: batches, sequences, concurrent schedules ---- *)
@@ -320,6 +400,121 @@ Lemma batch_pointwise p head conf (obs : list (list Z)) :
   batch_ok p head conf (concat obs) = forallb (batch_ok p head conf) obs.
 Proof.
   unfold batch_ok. induction obs as [|o r IH]; cbn; [reflexivity|]. rewrite forallb_app, IH. reflexivity.
+Qed.
+
+(* ---- the lookups that establish the bound ---- *)
+
+Lemma best_known_from best l m : fold_left learn l best = Some m -> best = Some m \/ In (Some m) l.
+Proof.
+  revert best; induction l as [|a l IH]; cbn; intros best H; [left; exact H|].
+  apply IH in H as [H|H]; [|right; right; exact H].
+  apply learn_cases in H as [H|H]; [left; exact H|right; left; exact H].
+Qed.
+
+(* the bound the judge uses is a head that was really served *)
+Lemma best_known_served answers m : best_known answers = Some m -> In (Some m) answers.
+Proof. unfold best_known. intros H. apply best_known_from in H as [H|H]; [discriminate|exact H]. Qed.
+
+Lemma is_nil_spec {A : Type} (l : list A) : is_nil l = true -> l = [].
+Proof. destruct l; [reflexivity|discriminate]. Qed.
+
+Lemma buried_mono p h m b conf : h <= m -> buried p h b conf = true -> buried p m b conf = true.
+Proof.
+  unfold buried, confirmations. intros Hm. destruct (uses_conf p); rewrite !Z.leb_le; lia.
+Qed.
+
+Lemma learn_fold_ge l best h : best = Some h -> exists m, fold_left learn l best = Some m /\ h <= m.
+Proof.
+  revert best h; induction l as [|a l IH]; cbn; intros best h ->; [exists h; split; [reflexivity|lia]|].
+  destruct a as [x|]; cbn.
+  - destruct (IH (Some (Z.max h x)) _ eq_refl) as [m [Hm Hle]]. exists m. split; [exact Hm|lia].
+  - apply IH. reflexivity.
+Qed.
+
+Lemma bound_ok_safe p obound conf blocks b :
+  bound_ok p obound conf blocks = true -> In b blocks ->
+  exists h, obound = Some h /\
+    (uses_conf p = true -> conf <= confirmations h b) /\ (uses_conf p = false -> b <= h).
+Proof.
+  unfold bound_ok. destruct obound as [h|]; intros Hok Hin.
+  - exists h. split; [reflexivity|]. eapply batch_ok_safe; eauto.
+  - apply is_nil_spec in Hok. subst. contradiction.
+Qed.
+
+(* Without an answered lookup nothing may be processed. *)
+Lemma bound_ok_unknown p conf blocks : bound_ok p None conf blocks = true -> blocks = [].
+Proof. apply is_nil_spec. Qed.
+
+Lemma batch_opt_model p ohead conf blks : bound_ok p ohead conf (batch_model_opt p ohead conf blks) = true.
+Proof. destruct ohead as [h|]; cbn; [apply batch_ok_model|reflexivity]. Qed.
+
+Lemma best_known_ge answers h : In (Some h) answers -> exists m, best_known answers = Some m /\ h <= m.
+Proof.
+  unfold best_known. generalize (@None Z) as best.
+  induction answers as [|a l IH]; cbn; intros best Hin; [contradiction|].
+  destruct Hin as [->|Hin]; [|apply IH; exact Hin].
+  destruct (learn best (Some h)) as [x|] eqn:Hl; [|destruct best; discriminate].
+  apply learn_ge in Hl. destruct (learn_fold_ge l (Some x) x eq_refl) as [m [Hm Hle]].
+  exists m. split; [exact Hm|lia].
+Qed.
+
+(* The code as it is - one lookup per evaluation, decided on its answer, an error ends the evaluation -
+   is accepted whatever else the handler has been served, before or afterwards. *)
+Lemma lookup_ok_model p answers a oblk conf :
+  In a answers -> lookup_ok p answers oblk conf (processed_opt p a oblk conf) = true.
+Proof.
+  unfold lookup_ok, processed_opt. intros Hin.
+  destruct oblk as [blk|]; [|destruct a; reflexivity].
+  destruct a as [h|].
+  - destruct (best_known_ge _ _ Hin) as [m [-> Hle]]. cbn [bound_ok].
+    unfold batch_ok, processed. destruct (accept p h blk conf) eqn:Ha; [|reflexivity].
+    apply accept_buried in Ha. apply (buried_mono _ _ m _ _ Hle) in Ha.
+    destruct (range_path p); cbn; rewrite Ha; reflexivity.
+  - destruct (best_known answers); reflexivity.
+Qed.
+
+(* a sequence of evaluations on one handler is judged evaluation by evaluation *)
+Lemma scripted_pointwise p conf evs :
+  scripted_ok p conf evs = true <->
+  Forall (fun e => match e with (oblk, served, blocks) => lookup_ok p served oblk conf blocks = true end) evs.
+Proof.
+  unfold scripted_ok. rewrite forallb_forall, Forall_forall.
+  split; intros H [[oblk served] blocks] Hin; apply (H _ Hin).
+Qed.
+
+Lemma scripted_ok_model_gen p conf seen script blks :
+  scripted_ok p conf
+    (combine (combine blks (served_so_far seen script blks)) (scripted_model p conf script blks)) = true.
+Proof.
+  revert seen script; induction blks as [|ob r IH]; intros seen script; [reflexivity|].
+  cbn [served_so_far scripted_model combine]. unfold scripted_ok. cbn [forallb].
+  apply andb_true_iff; split; [|apply IH].
+  destruct script as [|a more]; cbn [lookup_model firstn].
+  - destruct ob; unfold lookup_ok; [|reflexivity]. destruct (best_known (seen ++ [])); reflexivity.
+  - apply lookup_ok_model. apply in_or_app. right. left. reflexivity.
+Qed.
+
+(* Whatever the judge accepts: something was processed only if the event block was known and a
+   lookup was answered, and every processed block is buried deep enough under a head that was
+   really served to this evaluation. *)
+Lemma lookup_ok_safe p answers oblk conf blocks b :
+  lookup_ok p answers oblk conf blocks = true -> In b blocks ->
+  exists h blk, In (Some h) answers /\ oblk = Some blk /\
+    (uses_conf p = true -> conf <= confirmations h b) /\ (uses_conf p = false -> b <= h).
+Proof.
+  unfold lookup_ok. destruct oblk as [blk|]; intros Hok Hin.
+  - destruct (bound_ok_safe _ _ _ _ _ Hok Hin) as [h [Hb Hs]].
+    exists h, blk. split; [apply best_known_served; exact Hb|]. split; [reflexivity|exact Hs].
+  - apply is_nil_spec in Hok. subst. contradiction.
+Qed.
+
+(* All lookups failed (or none was made): nothing may be processed. *)
+Lemma lookup_ok_all_failed p answers oblk conf blocks :
+  (forall a, In a answers -> a = None) -> lookup_ok p answers oblk conf blocks = true -> blocks = [].
+Proof.
+  intros Hall Hok. destruct blocks as [|b l]; [reflexivity|].
+  destruct (lookup_ok_safe _ _ _ _ _ b Hok (or_introl eq_refl)) as [h [_ [Hin _]]].
+  apply Hall in Hin. discriminate.
 Qed.
 
 (* EVM retry by transaction hash, receipts with logs *)
